@@ -4,6 +4,24 @@ Engine E5 (edit-history machine): a tape-driven sequence of <= 24 public calls o
 1-3 live cirq.Circuit objects, with calls that fail part-way injected as faults, checked call
 by call against the list-of-lists reference model in engines/circuit_model.py and against a
 freshly rebuilt circuit (cache coherence).  See DESIGN.md section 3 (E5) and section 4 (C05).
+
+Violation classes: C05-OVERLAP, C05-LOST, C05-DUP, C05-ATOMIC, C05-ORDER, C05-PLACE, C05-RETURN,
+C05-STALE:<query>[@iter-raises], C05-PLACEMENT-CACHE, C05-ALIAS, C05-NORAISE (a call the
+documentation says fails returned normally), C05-SUT-EXCEPTION (runner).  Fingerprints are
+`<class>@<fault kind>:<method that last created/edited the circuit>`; behaviours of the
+implementation that depart from the letter of the documentation in a way the model can name
+(engines.circuit_model.VARIANTS) get `C05-PLACE@variant:<names>`.  A violation whose
+fingerprint is listed in known_findings.json is recorded (class suffix `~known`), the circuit
+concerned is rebuilt / the real layout adopted, and the history continues; the first such
+violation is raised at the end of the run so that the runner counts it as a known finding.
+
+What is deliberately *not* asserted (the property does not state it): where operations that do
+not fit into the range of insert_into_range end up; how far concat_ragged slides the second
+circuit (only: both keep their moment structure, qubit-sharing operations keep their order);
+circuit-level tags of results other than with_tags (transform_qubits drops them today);
+"before everything after the insertion point" for several items inserted mid-circuit with
+EARLIEST (the statement's exemption, read in the weakest way); the dict returned by
+insert_at_frontier.
 """
 from __future__ import annotations
 
@@ -576,6 +594,7 @@ class Run:
         groups = [[p] for p in probes] if (alive[0] or not hasattr(c, CACHE_FIELDS[0])) else [probes]
         for g in groups:
             outs = []
+            shown = []
             for circ in (clone_with_caches(c), fresh.copy()):
                 res = []
                 for p in g:
@@ -584,12 +603,13 @@ class Run:
                         res.append(None)
                     except Exception as e:  # noqa: BLE001
                         res.append(type(e).__name__)
-                outs.append((res, [sorted(map(repr, m.operations)) for m in circ.moments]))
+                outs.append((res, [sorted(map(id, m.operations)) for m in circ.moments]))   # same operation objects on both sides
+                shown.append((res, circ))
             if outs[0] != outs[1]:
                 self.flag("C05-PLACEMENT-CACHE",
                           f"circuit {i} ({M.show(lv.m)}; caches alive {dict(zip(CACHE_FIELDS, alive))}): appending "
-                          f"{[str(p) for p in g]} gives {_short(outs[0])} but on a freshly rebuilt equal "
-                          f"circuit {_short(outs[1])}", who=i)
+                          f"{[str(p) for p in g]} gives {_short(shown[0])} but on a freshly rebuilt equal "
+                          f"circuit {_short(shown[1])}", who=i)
                 return False
         return True
 
